@@ -229,10 +229,6 @@ fn emit_assignment(
     }
 }
 
-fn emit_expression(expression: &Expression, out: &mut Vec<Value>) {
-    emit_expression_ctx(expression, out, None, None);
-}
-
 fn emit_expression_ctx(
     expression: &Expression,
     out: &mut Vec<Value>,
